@@ -77,3 +77,44 @@ Definition sparse_chebyshev (a b : svec) : Z :=
 (* sparse_hamming: num_not_equal = sparse_diff(...)[0].shape[0]; return num_not_equal / n_features *)
 Definition sparse_hamming (a b : svec) (n_features : Z) : Z * Z :=
   (Z.of_nat (length (sparse_diff a b)), n_features).
+
+(* ---- the angular family: cosine, alternative_cosine (surrogate), true_angular, dot, alternative_dot ----
+   one loop accumulates  result += x[i]*y[i]; norm_x += x[i]*x[i]; norm_y += y[i]*y[i];
+   the value is then a branch on exact zero tests followed by a transcendental wrapper of
+   the ratio  result / sqrt(norm_x * norm_y), which the model keeps symbolic:
+     AZero            0.0
+     AOne             1.0
+     AMax             FLOAT32_MAX (the "infinitely far" sentinel of the surrogates)
+     ARatio r q       the wrapper applied to r / sqrt q       (q = norm_x * norm_y)        *)
+Fixpoint cos_loop (r nx ny : Z) (x y : list Z) : Z * Z * Z :=
+  match x, y with
+  | a :: x', b :: y' => cos_loop (r + a * b) (nx + a * a) (ny + b * b) x' y'
+  | _, _ => (r, nx, ny)
+  end.
+
+Inductive angval : Type := AZero | AOne | AMax | ARatio (r q : Z).
+
+(* cosine: 1 - r / sqrt q *)
+Definition cosine (x y : list Z) : angval :=
+  let '(r, nx, ny) := cos_loop 0 0 0 x y in
+  if (nx =? 0) && (ny =? 0) then AZero
+  else if (nx =? 0) || (ny =? 0) then AOne
+  else ARatio r (nx * ny).
+
+(* alternative_cosine: log2 (sqrt q / r); true_angular: 1 - arccos (min 1 (r / sqrt q)) / pi — same branches *)
+Definition alternative_cosine (x y : list Z) : angval :=
+  let '(r, nx, ny) := cos_loop 0 0 0 x y in
+  if (nx =? 0) && (ny =? 0) then AZero
+  else if (nx =? 0) || (ny =? 0) then AMax
+  else if r <=? 0 then AMax
+  else ARatio r (nx * ny).
+
+(* dot (on rows the index has normalised): result <= 0 -> 1.0 else 1 - result;  alternative_dot: FLOAT32_MAX / -log2 result.
+   ARatio r 1: the wrapper applied to r itself *)
+Fixpoint dot_loop (r : Z) (x y : list Z) : Z :=
+  match x, y with
+  | a :: x', b :: y' => dot_loop (r + a * b) x' y'
+  | _, _ => r
+  end.
+Definition dot (x y : list Z) : angval := let r := dot_loop 0 x y in if r <=? 0 then AOne else ARatio r 1.
+Definition alternative_dot (x y : list Z) : angval := let r := dot_loop 0 x y in if r <=? 0 then AMax else ARatio r 1.
